@@ -121,6 +121,25 @@ def object_programs():
     add("const-decl-copies", prog([decl("A", lst(num(1))), decl("B", var("A"), const=True), ex(mcall(var("A"), "@append", num(2))), disp(var("A"), var("B")), ex(num(0))]))
     add("loop-var-copy-list", prog([decl("X", lst(lst(num(1), num(2)), lst(num(3)))), iter_(["V"], var("X"), [ex(asg(idx(var("V"), num(1)), num(9))), disp(var("V"))]), disp(var("X")), ex(num(0))]))
     add("loop-var-copy-dict", prog([decl("X", dct(["a"], [lst(num(1))])), iter_(["K", "V"], var("X"), [ex(mcall(var("V"), "@append", num(9))), disp(var("K"), var("V"))]), disp(var("X")), ex(num(0))]))
+    # literals used DIRECTLY (no name in between) where they can be changed in place - as the receiver of a storing method, as an
+    # argument of a method that changes its parameter, as the result of 输出 that the caller changes - executed repeatedly: every
+    # execution of the literal is a new value, so every repetition shows the same thing
+    forms = {"empty-list": lambda: lst(), "const-list": lambda: lst(num(0)), "const-list-2": lambda: lst(num(1), s("x")), "nested-const-list": lambda: lst(lst(num(1))),
+             "empty-dict": lambda: dct([], []), "const-dict": lambda: dct(["a"], [num(1)])}
+    for fname, mk in forms.items():
+        isd = "dict" in fname
+        def mut(recv, x):
+            return mcall(recv, "@put", s("k"), x) if isd else mcall(recv, "@append", x)
+        contexts = {
+            "receiver": ([], lambda x: [ex(mut(mk(), x)), disp(mut(mk(), x))]),
+            "argument": ([func("chg", ["P"], [ex(mut(var("P"), num(7))), ret(var("P"))])], lambda x: [disp(call("chg", mk()))]),
+            "returned": ([func("mk", [], [ret(mk())])], lambda x: [disp(mut(call("mk"), x)), disp(call("mk"))]),
+        }
+        for cname, (fs, body) in contexts.items():
+            add("literal-direct:%s:%s:calls" % (fname, cname), prog([disp(call("rep", num(1))), disp(call("rep", num(2))), disp(call("rep", num(3))), ex(num(0))],
+                funcs=fs + [func("rep", ["X"], body(var("X")) + [ret(mk())])]))
+            add("literal-direct:%s:%s:while" % (fname, cname), prog([decl("I", num(0)), while_(bin_("lt", var("I"), num(3)), [ex(asg(var("I"), bin_("add", var("I"), num(1))))] + body(var("I"))), ex(num(0))], funcs=fs))
+            add("literal-direct:%s:%s:iterate" % (fname, cname), prog([iter_(["V"], lst(num(1), num(2), num(3)), body(var("V"))), ex(num(0))], funcs=fs))
     return P
 
 
